@@ -156,6 +156,11 @@ func (fx *FuncExec) evalCall(st *State, call *ast.CallExpr) []Term {
 	// arguments
 	args := fx.evalArgs(st, call, sig)
 	c, key, cpkg := fx.calleeContract(call)
+	if c == nil && selfFn != nil {
+		if rs, ok := fx.dispatchCall(st, call, sig, *selfFn, args); ok {
+			return rs
+		}
+	}
 	if c == nil {
 		fx.uncontr[key] = true
 		if selfFn != nil {
@@ -672,4 +677,150 @@ func (fx *FuncExec) freshStructFamily(st *State, si *StructInfo) string {
 	st.assume(fmt.Sprintf("(forall ((i Int) (j Int)) (! (=> (= (%s i) (%s j)) (= i j)) :pattern ((%s i) (%s j))))", mk, mk, mk, mk))
 	st.assume(fmt.Sprintf("(forall ((r %s)) (! (=> (select %s r) (select %s r)) :pattern ((select %s r))))", si.Sort, oldAl, newAl, newAl))
 	return mk
+}
+
+// dispatchCall handles a call through a function value of a named func type
+// by case analysis over the function literals of that type that carry a
+// contract: under fn_code(self) == code(L) the literal L's contract applies,
+// with L's captured variables read through the cap_ functions recorded when
+// the closure was created. For a `closedtype` the case analysis is assumed
+// exhaustive (every non-nil value of the type is one of those closures).
+func (fx *FuncExec) dispatchCall(st *State, call *ast.CallExpr, sig *types.Signature, self Term, args []Term) ([]Term, bool) {
+	ft := fx.typeOf(call.Fun)
+	named, ok := types.Unalias(ft).(*types.Named)
+	if !ok || named.Obj().Pkg() == nil {
+		return nil, false
+	}
+	tkey := named.Obj().Pkg().Name() + "." + named.Obj().Name()
+	closed := false
+	for _, c := range fx.ctx.spec.Closed {
+		if c == tkey {
+			closed = true
+		}
+	}
+	if !closed {
+		return nil, false
+	}
+	type cand struct {
+		li *FuncInfo
+		c  *Contract
+	}
+	var cands []cand
+	for _, k := range fx.ctx.order {
+		li := fx.ctx.funcs[k]
+		if li.Lit == nil || !types.Identical(li.Sig, sig) {
+			continue
+		}
+		// only literals that are converted to this named type at their creation site
+		if lt := li.Pkg.TypesInfo.Types[li.Lit].Type; lt == nil {
+			continue
+		}
+		c := fx.ctx.spec.Contracts[k]
+		if c == nil {
+			fx.uncontr["literal-without-contract:"+k] = true
+			continue
+		}
+		c.Used = true
+		cands = append(cands, cand{li, c})
+	}
+	if len(cands) == 0 {
+		return nil, false
+	}
+	fx.reg.declFun("fn_code", "(declare-fun fn_code (Fn) Int)")
+	fx.oblige(st, "panic/nilfunc", "", not(eq(self.S, "fn_nil")), "called function value is non-nil: "+trunc(exprString(call.Fun), 40), call.Pos())
+	codeOf := func(li *FuncInfo) string { return fmt.Sprint(fx.ctx.litCode(li.Key)) }
+	mkEnv := func(cd cand, cur, old *State, results []Term) *SpecEnv {
+		e := &SpecEnv{fx: fx, cur: cur, old: old, bound: map[string]Term{}, pkg: cd.li.Pkg.Types, where: "dispatch " + cd.li.Key}
+		lfx := &FuncExec{ctx: fx.ctx, reg: fx.reg, pkg: cd.li.Pkg, info: cd.li.Pkg.TypesInfo, fi: cd.li}
+		for _, v := range lfx.freeVars(cd.li.Lit) {
+			uf := "cap_" + sanitize(cd.li.Key) + "_" + v.Name()
+			vs := fx.reg.SortOf(v.Type())
+			fx.reg.declFun(uf, fmt.Sprintf("(declare-fun %s (Fn) %s)", uf, vs))
+			e.bound[v.Name()] = Term{S: "(" + uf + " " + self.S + ")", Sort: vs, T: v.Type()}
+		}
+		for i := 0; i < cd.li.Sig.Params().Len() && i < len(args); i++ {
+			if n := cd.li.Sig.Params().At(i).Name(); n != "" && n != "_" {
+				e.bound[n] = args[i]
+			}
+		}
+		e.bound["self"] = self
+		for i, r := range results {
+			name := fmt.Sprintf("result%d", i)
+			if len(results) == 1 {
+				name = "result"
+			}
+			e.bound[name] = r
+			if rn := cd.li.Sig.Results().At(i).Name(); rn != "" {
+				e.bound[rn] = r
+			}
+		}
+		return e
+	}
+	for _, cd := range cands {
+		guard := eq("(fn_code "+self.S+")", codeOf(cd.li))
+		for _, r := range cd.c.Requires {
+			if r.Free {
+				continue
+			}
+			env := mkEnv(cd, st, st, nil)
+			fx.oblige(st, "call-requires", "dispatch:"+cd.li.Key, imp(guard, env.Bool(r.Expr)), r.Text, call.Pos())
+		}
+	}
+	pre := st.clone()
+	union := map[string]bool{}
+	for _, cd := range cands {
+		if cd.c.Pure {
+			continue
+		}
+		if !cd.c.HasAssigns {
+			for _, cn := range fx.reg.comps {
+				union[cn] = true
+			}
+			continue
+		}
+		for cn := range fx.assignsComps(cd.c, cd.li.Pkg.Types) {
+			union[cn] = true
+		}
+	}
+	var comps []string
+	preAl := map[string]string{}
+	for _, cn := range fx.reg.comps {
+		if strings.HasPrefix(cn, "AL_") {
+			preAl[cn] = st.vars[cn]
+			if preAl[cn] == "" {
+				preAl[cn] = fx.h0(cn)
+			}
+			comps = append(comps, cn)
+		} else if union[cn] {
+			comps = append(comps, cn)
+			fx.writes[cn] = true
+		}
+	}
+	fx.havocHeap(st, comps)
+	fx.allocMonotone(st, preAl)
+	results := fx.freshResults(st, sig, pre)
+	var codes []string
+	for _, cd := range cands {
+		guard := eq("(fn_code "+self.S+")", codeOf(cd.li))
+		codes = append(codes, guard)
+		for _, en := range cd.c.Ensures {
+			env := mkEnv(cd, st, pre, results)
+			st.assume(imp(guard, env.Bool(en.Expr)))
+		}
+		// per-candidate frame: components havocked for the union but outside this literal's own assigns
+		own := map[string]bool{}
+		if !cd.c.Pure && cd.c.HasAssigns {
+			own = fx.assignsComps(cd.c, cd.li.Pkg.Types)
+		}
+		if cd.c.Pure || cd.c.HasAssigns {
+			for _, cn := range comps {
+				if strings.HasPrefix(cn, "AL_") || own[cn] {
+					continue
+				}
+				st.assume(imp(guard, eq(st.vars[cn], pre.vars[cn])))
+			}
+		}
+	}
+	st.assume(or(codes...)) // closed world
+	return results, true
 }
